@@ -138,10 +138,14 @@ class SchemaBuilder(
         self.refs = refs
 
     def ref_schema(self, ref: Optional[str]) -> Optional[JsonSchema]:
-        if ref not in self.refs:
+        if ref is None:
             return None
         elif self._ignore_first_ref:
+            # the first named type must be consumed even if it is not extracted,
+            # otherwise the next one (possibly recursive) would be inlined
             self._ignore_first_ref = False
+            return None
+        elif ref not in self.refs:
             return None
         else:
             assert isinstance(ref, str)
